@@ -52,9 +52,6 @@ pub fn gen(seed: u64, idx: u64, tier: Tier) -> Scenario {
             let verb = upper(&a[0].0);
             if matches!(verb.as_str(), "SPOP" | "SRANDMEMBER" | "RANDOMKEY" | "SELECT" | "SAVE" | "BGSAVE" | "FLUSHALL") { continue; }
             if a.iter().any(|x| x.0.len() > 4096) { continue; }
-            // inputs whose handling by the DIRECT command is already a recorded C01 finding (empty key refused, SET NX XX accepted)
-            if a.len() > 1 && a[1].0.is_empty() { continue; }
-            if verb == "SET" && a.iter().any(|x| x.0.eq_ignore_ascii_case(b"NX")) && a.iter().any(|x| x.0.eq_ignore_ascii_case(b"XX")) { continue; }
             n += 1;
             // how the command is wrapped: call, pcall, with its key in KEYS, through EVALSHA
             sc.steps.push(Step::Ctl { name: "diff".into(), n: r.below(4) as i64, a: a.clone() });
